@@ -145,6 +145,9 @@ class Component(ModelElement):
         if pval is None:
             self.unset_property(pname)
             return
+        if pname == 'name':
+            # a new name must be free in the scope the constructors check
+            self._check_name_unique(pval)
         comp_sliver = ComponentSliver()
         comp_sliver.set_property(prop_name=pname, prop_val=pval)
         # write into the graph
